@@ -1,7 +1,43 @@
+import Driver.C01
+import Driver.C02
+import Driver.C03
 import Driver.C04
+import Driver.C05
+import Driver.C06
+import Driver.C07
+import Driver.C08
+import Driver.C09
+import Driver.C10
+import Driver.C11
+import Driver.C12
+import Driver.C13
+import Driver.C14
+import Driver.C15
+import Driver.C16
+import Driver.C17
+import Driver.C18
+import Driver.C19
 
 def main (args : List String) : IO UInt32 := do
   let lines ← Drv.readAll (← IO.getStdin) #[]
   match args with
+  | ["C01"] => DrvC01.run lines; return 0
+  | ["C02"] => DrvC02.run lines; return 0
+  | ["C03"] => DrvC03.run lines; return 0
   | ["C04"] => DrvC04.run lines; return 0
-  | _ => IO.eprintln "usage: fdrv <property>"; return 2
+  | ["C05"] => DrvC05.run lines; return 0
+  | ["C06"] => DrvC06.run lines; return 0
+  | ["C07"] => DrvC07.run lines; return 0
+  | ["C08"] => DrvC08.run lines; return 0
+  | ["C09"] => DrvC09.run lines; return 0
+  | ["C10"] => DrvC10.run lines; return 0
+  | ["C11"] => DrvC11.run lines; return 0
+  | ["C12"] => DrvC12.run lines; return 0
+  | ["C13"] => DrvC13.run lines; return 0
+  | ["C14"] => DrvC14.run lines; return 0
+  | ["C15"] => DrvC15.run lines; return 0
+  | ["C16"] => DrvC16.run lines; return 0
+  | ["C17"] => DrvC17.run lines; return 0
+  | ["C18"] => DrvC18.run lines; return 0
+  | ["C19"] => DrvC19.run lines; return 0
+  | _ => IO.eprintln "usage: fdrv <property> < ops.txt"; return 2
